@@ -417,8 +417,11 @@ class C07(Property):
         'reading of the count clause: with rref_equil=True the equilibrium block has rank(A | ln K) equations, i.e. fewer than nr '
         'for linearly dependent reactions ("independent equations after reduction"); the property text says "number of reactions" — '
         'recorded as a deviation of the text, theorem dependent_reaction_adds_no_equation shows no information is lost',
-        'that the call returns what the model says in the rref configurations is a Float/tolerance correspondence (1e-9 of the row '
-        'scale) at planted states with concentrations in [0.1, 10], not an exact one',
+        'model vs real f in the rref configurations: EXACT over Q for (rref_equil=False, rref_preserv=True) with Lin/Square; a '
+        'Float/tolerance correspondence (1e-9 of the row scale) at planted states with concentrations in [0.1, 10] wherever the '
+        'reduced equilibrium block (ln K, fractional exponents) or Log/LinRel is involved',
+        'precipitate systems in the rref_equil=True configuration (NumSysLin: small = 0 for a switched-off solid, Python takes log(0) = -inf/zoo): '
+        'excluded from the theorems by the positivity hypothesis, never generated, model totalised there (Real.log 0 = 0)',
         'NumSysLinTanh (named in the anchors) raises TypeError for every input — open known finding, no theorem',
         'histories on ONE EqSystem object (evaluate, `eqsys += [Equilibrium…]`, `rxn.param` set in place, evaluate again in every '
         'formulation/configuration): the model is a pure function of (system, y, params), i.e. it describes each evaluation of the '
@@ -460,7 +463,7 @@ class C07(Property):
             return F(rng.randint(1, 60))
         return F(rng.randint(1, 9999), 10 ** rng.randint(0, 12))
 
-    def _planted(self, rng, sysspec, form, kind, narrow=None, viol_index=None):
+    def _planted(self, rng, sysspec, form, kind, narrow=None, viol_index=None, near_ok=None):
         """(y, params, info) for a planted state"""
         N = net_matrix(sysspec)
         ns, nr = len(sysspec['species']), len(N)
@@ -481,7 +484,9 @@ class C07(Property):
         fac = rng.choice([F(2), F(1, 2), F(9, 8), F(3), F(7, 8)])
         # a violation CLOSE to equilibrium (relative 1e-4): a residual that vanishes on a thin set around the equilibrium must show.
         # For a violated K in every formulation; for totals / concentrations only where the oracle is exact (Lin, Square).
-        if rng.random() < 0.25 and (kind == 'viol_q' or form in ('lin', 'square')):
+        if near_ok is None:
+            near_ok = kind == 'viol_q' or form in ('lin', 'square')
+        if rng.random() < 0.25 and near_ok:
             fac = rng.choice([F(10001, 10000), F(9999, 10000)])
         info = {'kind': kind}
         if kind == 'viol_q' and nr:
@@ -525,7 +530,7 @@ class C07(Property):
         out = []
         form = rng.choice(['square', 'log', 'linrel'])
         kind = rng.choice(['eq', 'eq', 'viol_q', 'viol_total', 'viol_conc'])
-        c_, p, info = self._planted(rng, spec, 'lin', kind, narrow=True)
+        c_, p, info = self._planted(rng, spec, 'lin', kind, narrow=True, near_ok=(kind == 'viol_q'))   # judged in floats
         if info['kind'] == 'viol_q' and 'i' not in info:
             info['kind'] = 'eq'
         cf = [float(v) for v in c_]
@@ -726,6 +731,17 @@ class C07(Property):
             rA, rb = linear_rref(B, b)
             redP = {'rA': [[fbits(fl(rA[i, j])) for j in range(rA.cols)] for i in range(rA.rows)], 'rb': [fbits(fl(v)) for v in rb]}
         NS = numsys(c['form'])
+        if not c['rref_equil'] and c['form'] in ('lin', 'square'):
+            # purely rational configuration: compared EXACTLY over Q (no Float, no tolerance)
+            B, _ = es.composition_balance_vectors()
+            b = [sum(sp.Integer(x) * v for x, v in zip(row, ps[:ns])) for row in B]
+            rA, rb = linear_rref(B, b)
+            q = lambda v: rj(F(int(sp.Rational(v).p), int(sp.Rational(v).q)))
+            return {'op': 'rp_f', 'form': c['form'], 'sys': encode(es), 'src': c['sys'], 'precipitates': [],
+                    'small': rj(F(NS.small)), 'rref_preserv': True,
+                    'redP': {'rA': [[q(rA[i, j]) for j in range(rA.cols)] for i in range(rA.rows)], 'rb': [q(v) for v in rb]},
+                    'y': c['y'], 'params': c['params'],
+                    'case': {k: c[k] for k in ('form', 'y', 'params', 'rref_equil', 'rref_preserv')}}
         return {'op': 'cfg_f', 'form': c['form'], 'sys': encode(es), 'src': c['sys'], 'precipitates': [],
                 'small': fbits(NS.small), 'rref_equil': bool(c['rref_equil']), 'rref_preserv': bool(c['rref_preserv']),
                 'redE': redE, 'redP': redP, 'y': [fbits(fl(v)) for v in ys], 'params': [fbits(fl(v)) for v in ps],
@@ -797,6 +813,15 @@ class C07(Property):
         es = build(mc['src'])
         if op == 'multi':
             return self._impl_multi(es, mc)
+        if op == 'rp_f':
+            import sympy as sp
+            cc = dict(mc['case'])
+            ys, ps, _ = self._rref_inputs(cc, es)
+            try:
+                r = numsys(cc['form'])(es, backend=sp, rref_equil=False, rref_preserv=True).f(ys, ps)
+                return show_rat_list([F(int(sp.Rational(v).p), int(sp.Rational(v).q)) for v in r])
+            except Exception as e:
+                return exc_name(e)
         if op == 'cfg_f':
             import sympy as sp
             cc = dict(mc['case'])
@@ -900,6 +925,8 @@ class C07(Property):
     def same(self, mc, io, mo):
         if mc['op'] == 'multi':
             return self._same_multi(mc, io, mo)
+        if mc['op'] == 'rp_f':
+            return io == mo
         if mc['op'] == 'cfg_f':
             return self._same_cfg(mc, io, mo)
         if mc['op'] == 'pre_post':
